@@ -48,8 +48,8 @@ ASSUMPTIONS = ['samples are finite 1-d ndarrays; weights are non-negative finite
                'constraints for GMDistribution.rvs are derived from the mixture itself with acceptance mass >= 20 % (the sampler retries for ever by design); '
                'a call that makes more than 3000 proposal rounds counts as not returning']
 CONFIG = {
-    'quick': {'shards': 16, 'cases': 110, 'timeout': 600, 'floor': 350},
-    'thorough': {'shards': 32, 'cases': 3400, 'timeout': 3000, 'floor': 21000},
+    'quick': {'shards': 16, 'cases': 825, 'timeout': 600, 'floor': 2625},
+    'thorough': {'shards': 32, 'cases': 6800, 'timeout': 5400, 'floor': 42000},
 }
 REQUIRED = ['contract_weighted_sample_quantile', 'contract_weighted_var', 'contract_compute_ess', 'contract_pdf', 'contract_logpdf',
             'contract_rvs', 'quantile_alpha_zero', 'quantile_alpha_one', 'quantile_alpha_on_boundary', 'quantile_with_ties',
